@@ -22,7 +22,7 @@ MatT(n, a) == [ i \in 1..Size(n) |-> 1 + ((Comp(i, n) + Coord(i, n, ((a + 1) % 3
 \* boundary kinds: full domain kf on axis ax ("open" | "pec2"), "wrap" elsewhere; reduced: PEC wall on min, same max
 BkF == [ a \in 1..3 |-> IF a = ax + 1 THEN kf ELSE "wrap" ]
 BkR == [ a \in 1..3 |-> IF a = ax + 1 THEN (IF kf = "open" THEN "pec-" ELSE "pec2") ELSE "wrap" ]
-NoLayer == << -1, 0 >>
+NoLayer == NoLayers
 
 DenseR(n, a, ft, s) ==
     [ i \in 1..Size(n) |-> IF Coord(i, n, a + 1) = 0 /\ OnPlane(ft, Comp(i, n), a) THEN 0
